@@ -1,11 +1,200 @@
-From Coq Require Import List ZArith Bool Arith.
-From Koala Require Import Model.Marker Proofs.MarkerFacts.
-Import ListNotations.
-Open Scope Z_scope.
+(* Props/C18.v — C18: Chern and crosshair markers implement their defining formula and symmetries.
 
-(* clause "theta the indicator of positions STRICTLY below the crosshair coordinate":
-   a site whose coordinate equals the crosshair coordinate has theta = 0 *)
-Theorem C18_crosshair_strict : forall xs X j, (j < length xs)%nat -> nth j xs 0 = X ->
-  nth j (theta xs X) gz0 = gz0.
-Proof. exact theta_on_vertex_is_zero. Qed.
+   Setting: an arbitrary numClosedFieldType C (MathComp 1.15), every size n, P : 'M[C]_n,
+     hermitian P  :=  (map_mx conjC P)^T = P          idempotent P := P *m P = P
+     realv a      :=  forall j, a 0 j \is Num.real    signv d := forall j, d 0 j * d 0 j = 1
+     marker P a b i     := 'Im ((P *m diag_mx a *m P *m diag_mx b *m P) i i)      (prefactor 4 pi symbolic)
+     crosshair P x y X Y := marker P (stepv x X) (stepv y Y),  stepv x X j = (x_j < X)%:R   (STRICT)
+     chern P x y         := marker P x y
+   The executable model (Model/Marker.v; extracted and compared with koala/chern_number.py by
+   harness/c18.py) is tied to these definitions by the *_def theorems below.
+   NOT covered by a theorem: the float matrix products of numpy and the value of 4*pi (shell; K/S only). *)
+From Coq Require Import ZArith.
+From Coq Require List.
+From mathcomp Require Import all_ssreflect all_algebra.
+From mathcomp Require Import fingroup perm ssrZ.
+From Koala Require Import Model.Marker Proofs.MarkerFacts Proofs.MarkerMx Proofs.MarkerBridge.
+Set Implicit Arguments. Unset Strict Implicit. Unset Printing Implicit Defensive.
+Import GRing.Theory Num.Theory.
+Local Open Scope ring_scope.
+
+(* ---- clause "equals 4 pi times Im of the diagonal of P theta_x P theta_y P" (operator order, Im, diagonal) ---- *)
+
+(* the generic list program of chern_number.py:26-27/48-49 (left-associated @, np.diag both ways, .imag), run
+   on lists over C, computes the property's formula of the matrices the lists denote *)
+Theorem C18_marker_def : forall (C : numClosedFieldType) (n : nat) (P : list (list C)) (a b : list C),
+  wf_shape C n P a b = true ->
+  size (lmarkerC n P a b) = n /\
+  forall i : 'I_n, nth 0 (lmarkerC n P a b) i = marker (mx_of n P) (rv_of n a) (rv_of n b) i.
+Proof. exact lmarker_correct. Qed.
+Print Assumptions C18_marker_def.
+
+(* the extracted instance (Gaussian integers), embedded by gzC (a,b) = a + i b *)
+Theorem C18_marker_def_extracted : forall (C : numClosedFieldType) (n : nat) (P : list (list gz)) (a b : list gz) (l : list Z),
+  gz_marker n P a b = Some l ->
+  size l = n /\ forall i : 'I_n, zC C (nth Z0 l i) = marker (gzmx C n P) (gzrv C n a) (gzrv C n b) i.
+Proof. exact gz_marker_correct. Qed.
+Print Assumptions C18_marker_def_extracted.
+
+(* crosshair_marker (chern_number.py:5-29): strict step functions of the positions *)
+Theorem C18_crosshair_def : forall (C : numClosedFieldType) (n : nat) (P : list (list gz)) (xs ys : list Z) (X Y : Z) (l : list Z),
+  size xs = n -> crosshair_num P xs ys X Y = Some l ->
+  size l = n /\
+  forall i : 'I_n, zC C (nth Z0 l i) = crosshair (gzmx C n P) (zrv C n xs) (zrv C n ys) (zC C X) (zC C Y) i.
+Proof. exact crosshair_num_correct. Qed.
+Print Assumptions C18_crosshair_def.
+
+(* chern_marker (chern_number.py:32-51): the position operators themselves *)
+Theorem C18_chern_def : forall (C : numClosedFieldType) (n : nat) (P : list (list gz)) (xs ys : list Z) (l : list Z),
+  size xs = n -> chern_num P xs ys = Some l ->
+  size l = n /\ forall i : 'I_n, zC C (nth Z0 l i) = chern (gzmx C n P) (zrv C n xs) (zrv C n ys) i.
+Proof. exact chern_num_correct. Qed.
+Print Assumptions C18_chern_def.
+
+(* the decidable hypothesis check run by the harness on every exact input is sound *)
+Theorem C18_projector_check_sound : forall (C : numClosedFieldType) (n : nat) (D : Z) (P : list (list gz)),
+  gz_projb n D P = true ->
+  hermitian (gzmx C n P) /\ gzmx C n P *m gzmx C n P = zC C D *: gzmx C n P.
+Proof. exact gz_projb_sound. Qed.
+Print Assumptions C18_projector_check_sound.
+
+(* common denominators: P = Pz / D, positions = xs / S  ==>  marker = numerator / (D^3 S^2) *)
+Theorem C18_marker_scaleP : forall (C : numClosedFieldType) (n : nat) (c : C) (P : 'M[C]_n) (a b : 'rV[C]_n) (i : 'I_n),
+  c \is Num.real -> marker (c *: P) a b i = c ^+ 3 * marker P a b i.
+Proof. exact marker_scaleP. Qed.
+Print Assumptions C18_marker_scaleP.
+
+Theorem C18_marker_scale_ab : forall (C : numClosedFieldType) (n : nat) (s t : C) (P : 'M[C]_n) (a b : 'rV[C]_n) (i : 'I_n),
+  s \is Num.real -> t \is Num.real -> marker P (s *: a) (t *: b) i = s * t * marker P a b i.
+Proof. exact marker_scale_ab. Qed.
+Print Assumptions C18_marker_scale_ab.
+
+(* ---- clause "strictly below": a site exactly on the crosshair coordinate has theta = 0 ---- *)
+Theorem C18_crosshair_strict : forall (C : numClosedFieldType) (n : nat) (x : 'rV[C]_n) (X : C) (j : 'I_n),
+  x 0 j = X -> stepv x X 0 j = 0.
+Proof. exact stepv_on_vertex. Qed.
 Print Assumptions C18_crosshair_strict.
+
+Theorem C18_crosshair_strict_model : forall (xs : list Z) (X : Z) (j : nat), (j < length xs)%coq_nat -> List.nth j xs Z0 = X ->
+  List.nth j (theta xs X) gz0 = gz0.
+Proof. exact theta_on_vertex_is_zero. Qed.
+Print Assumptions C18_crosshair_strict_model.
+
+Theorem C18_crosshair_below : forall (C : numClosedFieldType) (n : nat) (x : 'rV[C]_n) (X : C) (j : 'I_n),
+  (x 0 j < X)%R -> stepv x X 0 j = 1.
+Proof. exact stepv_below. Qed.
+Print Assumptions C18_crosshair_below.
+
+(* ---- clause "both are real" ---- *)
+Theorem C18_marker_real : forall (C : numClosedFieldType) (n : nat) (P : 'M[C]_n) (a b : 'rV[C]_n) (i : 'I_n),
+  marker P a b i \is Num.real.
+Proof. exact marker_real. Qed.
+Print Assumptions C18_marker_real.
+
+(* ---- clause "sum to zero over all sites" ---- *)
+Theorem C18_marker_sum_zero : forall (C : numClosedFieldType) (n : nat) (P : 'M[C]_n) (a b : 'rV[C]_n),
+  hermitian P -> idempotent P -> realv a -> realv b -> \sum_i marker P a b i = 0.
+Proof. exact marker_sum_zero. Qed.
+Print Assumptions C18_marker_sum_zero.
+
+Theorem C18_crosshair_sum_zero : forall (C : numClosedFieldType) (n : nat) (P : 'M[C]_n) (x y : 'rV[C]_n) (X Y : C),
+  hermitian P -> idempotent P -> \sum_i crosshair P x y X Y i = 0.
+Proof. exact crosshair_sum_zero. Qed.
+Print Assumptions C18_crosshair_sum_zero.
+
+Theorem C18_chern_sum_zero : forall (C : numClosedFieldType) (n : nat) (P : 'M[C]_n) (x y : 'rV[C]_n),
+  hermitian P -> idempotent P -> realv x -> realv y -> \sum_i chern P x y i = 0.
+Proof. exact chern_sum_zero. Qed.
+Print Assumptions C18_chern_sum_zero.
+
+(* the integer numerators printed by the extracted model sum to zero whenever the projector check accepts *)
+Theorem C18_model_sum_zero : forall (C : numClosedFieldType) (n : nat) (D : Z) (P : list (list gz)) (a b : list gz) (l : list Z),
+  gz_projb n D P = true ->
+  (forall g, List.In g a -> g.2 = Z0) -> (forall g, List.In g b -> g.2 = Z0) ->
+  gz_marker n P a b = Some l -> \sum_(i < n) zC C (nth Z0 l i) = 0.
+Proof. exact gz_marker_sum_zero. Qed.
+Print Assumptions C18_model_sum_zero.
+
+(* ---- clause "change sign when the x and y coordinates are exchanged" ---- *)
+Theorem C18_marker_swap : forall (C : numClosedFieldType) (n : nat) (P : 'M[C]_n) (a b : 'rV[C]_n) (i : 'I_n),
+  hermitian P -> realv a -> realv b -> marker P b a i = - marker P a b i.
+Proof. exact marker_swap. Qed.
+Print Assumptions C18_marker_swap.
+
+Theorem C18_crosshair_swap : forall (C : numClosedFieldType) (n : nat) (P : 'M[C]_n) (x y : 'rV[C]_n) (X Y : C) (i : 'I_n),
+  hermitian P -> crosshair P y x Y X i = - crosshair P x y X Y i.
+Proof. exact crosshair_swap. Qed.
+Print Assumptions C18_crosshair_swap.
+
+Theorem C18_chern_swap : forall (C : numClosedFieldType) (n : nat) (P : 'M[C]_n) (x y : 'rV[C]_n) (i : 'I_n),
+  hermitian P -> realv x -> realv y -> chern P y x i = - chern P x y i.
+Proof. exact chern_swap. Qed.
+Print Assumptions C18_chern_swap.
+
+(* ---- clause "follow the sites under vertex relabelling" ----
+   relab s P i j = P (s i) (s j), relabv s a j = a (s j)  (permute_vertices: new site i = old site ordering[i]);
+   relab s P is the conjugation by the permutation matrix of s *)
+Theorem C18_relabel_is_permutation_conjugation : forall (C : numClosedFieldType) (n : nat) (s : 'S_n) (M : 'M[C]_n),
+  relab s M = perm_mx s *m M *m (perm_mx s)^T.
+Proof. exact relab_perm_mx. Qed.
+Print Assumptions C18_relabel_is_permutation_conjugation.
+
+Theorem C18_marker_relabel : forall (C : numClosedFieldType) (n : nat) (s : 'S_n) (P : 'M[C]_n) (a b : 'rV[C]_n) (i : 'I_n),
+  marker (relab s P) (relabv s a) (relabv s b) i = marker P a b (s i).
+Proof. exact marker_relabel. Qed.
+Print Assumptions C18_marker_relabel.
+
+Theorem C18_crosshair_relabel : forall (C : numClosedFieldType) (n : nat) (s : 'S_n) (P : 'M[C]_n) (x y : 'rV[C]_n) (X Y : C) (i : 'I_n),
+  crosshair (relab s P) (relabv s x) (relabv s y) X Y i = crosshair P x y X Y (s i).
+Proof. exact crosshair_relabel. Qed.
+Print Assumptions C18_crosshair_relabel.
+
+Theorem C18_chern_relabel : forall (C : numClosedFieldType) (n : nat) (s : 'S_n) (P : 'M[C]_n) (x y : 'rV[C]_n) (i : 'I_n),
+  chern (relab s P) (relabv s x) (relabv s y) i = chern P x y (s i).
+Proof. exact chern_relabel. Qed.
+Print Assumptions C18_chern_relabel.
+
+Theorem C18_relabel_keeps_projector : forall (C : numClosedFieldType) (n : nat) (s : 'S_n) (P : 'M[C]_n),
+  (hermitian P -> hermitian (relab s P)) /\ (idempotent P -> idempotent (relab s P)).
+Proof. exact (fun C n s P => conj (@relab_hermitian C n s P) (@relab_idempotent C n s P)). Qed.
+Print Assumptions C18_relabel_keeps_projector.
+
+(* ---- clause "unchanged by site-wise sign (gauge) changes of the states spanning P": P -> D P D ---- *)
+Theorem C18_marker_gauge : forall (C : numClosedFieldType) (n : nat) (d : 'rV[C]_n) (P : 'M[C]_n) (a b : 'rV[C]_n) (i : 'I_n),
+  signv d -> marker (gaugeP d P) a b i = marker P a b i.
+Proof. exact marker_gauge. Qed.
+Print Assumptions C18_marker_gauge.
+
+Theorem C18_crosshair_gauge : forall (C : numClosedFieldType) (n : nat) (d : 'rV[C]_n) (P : 'M[C]_n) (x y : 'rV[C]_n) (X Y : C) (i : 'I_n),
+  signv d -> crosshair (gaugeP d P) x y X Y i = crosshair P x y X Y i.
+Proof. exact crosshair_gauge. Qed.
+Print Assumptions C18_crosshair_gauge.
+
+Theorem C18_chern_gauge : forall (C : numClosedFieldType) (n : nat) (d : 'rV[C]_n) (P : 'M[C]_n) (x y : 'rV[C]_n) (i : 'I_n),
+  signv d -> chern (gaugeP d P) x y i = chern P x y i.
+Proof. exact chern_gauge. Qed.
+Print Assumptions C18_chern_gauge.
+
+Theorem C18_gauge_keeps_projector : forall (C : numClosedFieldType) (n : nat) (d : 'rV[C]_n) (P : 'M[C]_n),
+  (realv d -> hermitian P -> hermitian (gaugeP d P)) /\ (signv d -> idempotent P -> idempotent (gaugeP d P)).
+Proof. exact (fun C n d P => conj (@gauge_hermitian C n d P) (@gauge_idempotent C n d P)). Qed.
+Print Assumptions C18_gauge_keeps_projector.
+
+(* ---- non-vacuity ---- *)
+(* a rank-2 projector in dimension 4 (P4z / 4): accepted by the check, non-zero markers, sign flip under
+   x <-> y, and the crosshair exactly on x_1 does not count site 1 *)
+Example C18_model_nonvacuous :
+  gz_projb 4 (Zpos 4) P4z = true /\
+  crosshair_num P4z xs4 ys4 (Zpos 2) (Zpos 2) = Some [:: Zpos 1; Zneg 1; Zneg 1; Zpos 1] /\
+  crosshair_num P4z ys4 xs4 (Zpos 2) (Zpos 2) = Some [:: Zneg 1; Zpos 1; Zpos 1; Zneg 1] /\
+  crosshair_num P4z xs4 ys4 (Zpos 1) (Zpos 2) = Some [:: Z0; Zneg 1; Z0; Zpos 1] /\
+  chern_num P4z xs4 ys4 = Some [:: Zpos 3; Zneg 3; Zneg 3; Zpos 3] /\
+  chern_num P4z ys4 xs4 = Some [:: Zneg 3; Zpos 3; Zpos 3; Zneg 3].
+Proof. exact P4z_example. Qed.
+
+(* over every numClosedFieldType there is a Hermitian idempotent P with real positions and a non-zero crosshair marker *)
+Example C18_hypotheses_nonvacuous : forall C : numClosedFieldType,
+  exists (P : 'M[C]_4) (x y : 'rV[C]_4) (X Y : C) (i : 'I_4),
+    [/\ hermitian P, idempotent P, realv x, realv y & crosshair P x y X Y i != 0].
+Proof. exact marker_hyps_nonvacuous. Qed.
+Print Assumptions C18_hypotheses_nonvacuous.
